@@ -646,12 +646,13 @@ func checkNonNilEdge(c *Ctx, fn *ssa.Function, s errSite, flow map[ssa.Value]boo
 						latched = true
 					}
 				}
-				if fa, ok := st.Addr.(*ssa.FieldAddr); ok {
-					if bv, ok := constBool(st.Val); ok && bv && len(fn.Params) > 0 && fa.X == fn.Params[0] {
+				if _, ok := st.Addr.(*ssa.FieldAddr); ok && len(fn.Params) > 0 {
+					_, _, onRecv := chainField(st.Addr, fn.Params[0])
+					if bv, ok := constBool(st.Val); ok && bv && onRecv {
 						latched = true
 					}
 					// an error-typed latch: the error itself (non-nil on this edge) or a fresh one is recorded
-					if len(fn.Params) > 0 && fa.X == fn.Params[0] && isErrorType(st.Val.Type()) && (flow[st.Val] || neverNilError(c, st.Val)) {
+					if onRecv && isErrorType(st.Val.Type()) && (flow[st.Val] || neverNilError(c, st.Val)) {
 						latched = true
 					}
 				}
@@ -769,6 +770,36 @@ func returnsOnlyNonZero(f *ssa.Function) bool {
 	return n > 0
 }
 
+
+// chainField: addr is &root.e1.e2.f where e1, e2 are embedded structs (or
+// addr is &root.f): the struct type that declares f and f's index.
+func chainField(addr ssa.Value, root ssa.Value) (*types.Named, int, bool) {
+	fa, ok := addr.(*ssa.FieldAddr)
+	if !ok {
+		return nil, 0, false
+	}
+	t := fa.X.Type()
+	if pt, ok := t.Underlying().(*types.Pointer); ok {
+		t = pt.Elem()
+	}
+	owner, ok := t.(*types.Named)
+	if !ok {
+		return nil, 0, false
+	}
+	base := fa.X
+	for i := 0; i < 4 && base != root; i++ {
+		inner, ok := base.(*ssa.FieldAddr)
+		if !ok || !isEmbeddedField(inner) {
+			return nil, 0, false
+		}
+		base = inner.X
+	}
+	if base != root {
+		return nil, 0, false
+	}
+	return owner, fa.Field, true
+}
+
 // E-LATCH: failures recorded by Less are reported after the sort.
 func ruleLatch(c *Ctx) *RuleResult {
 	r := &RuleResult{Doc: "a failure latched by a sort adapter's Less is tested after sort.Stable/Sort; the latched edge returns a non-nil error and no success return bypasses the test", Floor: 2}
@@ -797,20 +828,21 @@ func ruleLatch(c *Ctx) *RuleResult {
 				if !ok {
 					continue
 				}
-				fa, ok := st.Addr.(*ssa.FieldAddr)
-				if !ok || fa.X != fn.Params[0] {
+				owner, fld, ok := chainField(st.Addr, fn.Params[0])
+				if !ok {
 					continue
 				}
+				_ = nt
 				isErr := isErrorType(st.Val.Type())
 				if bv, ok := constBool(st.Val); (ok && bv) || isErr {
 					dup := false
 					for _, l := range latches {
-						if l.T == nt && l.field == fa.Field {
+						if l.T == owner && l.field == fld {
 							dup = true
 						}
 					}
 					if !dup {
-						latches = append(latches, latch{nt, fa.Field, isErr})
+						latches = append(latches, latch{owner, fld, isErr})
 					}
 				}
 			}
@@ -829,13 +861,13 @@ func ruleLatch(c *Ctx) *RuleResult {
 				if !ok {
 					continue
 				}
-				fa, ok := st.Addr.(*ssa.FieldAddr)
-				if !ok || fa.X != fn.Params[0] {
+				owner, fld, ok := chainField(st.Addr, fn.Params[0])
+				if !ok {
 					continue
 				}
 				var l *latch
 				for i := range latches {
-					if pt, ok := fn.Signature.Recv().Type().(*types.Pointer); ok && pt.Elem() == types.Type(latches[i].T) && latches[i].field == fa.Field {
+					if latches[i].T == owner && latches[i].field == fld {
 						l = &latches[i]
 					}
 				}
@@ -1014,18 +1046,56 @@ func ruleLatch(c *Ctx) *RuleResult {
 				if n != "sort.Stable" && n != "sort.Sort" {
 					continue
 				}
-				mi, ok := call.Call.Args[0].(*ssa.MakeInterface)
-				if !ok {
-					continue
+				// the sorted object: what was boxed, or the interface value itself
+				obj := call.Call.Args[0]
+				for {
+					if mi, ok := obj.(*ssa.MakeInterface); ok {
+						obj = mi.X
+						continue
+					}
+					if ci, ok := obj.(*ssa.ChangeInterface); ok {
+						obj = ci.X
+						continue
+					}
+					break
 				}
-				pt, ok := mi.X.Type().(*types.Pointer)
-				if !ok {
-					continue
+				// the adapter types it can be
+				var adapters []*types.Named
+				if pt, ok := obj.Type().(*types.Pointer); ok {
+					if n, ok := pt.Elem().(*types.Named); ok {
+						adapters = append(adapters, n)
+					}
+				} else if it, ok := obj.Type().Underlying().(*types.Interface); ok {
+					for _, m := range c.SLib.Members {
+						tm, ok := m.(*ssa.Type)
+						if !ok {
+							continue
+						}
+						n, ok := tm.Type().(*types.Named)
+						if !ok {
+							continue
+						}
+						if _, isIface := n.Underlying().(*types.Interface); isIface {
+							continue
+						}
+						if types.Implements(types.NewPointer(n), it) || types.Implements(n, it) {
+							adapters = append(adapters, n)
+						}
+					}
 				}
 				var l *latch
-				for i := range latches {
-					if types.Identical(pt.Elem(), latches[i].T) {
-						l = &latches[i]
+				all := len(adapters) > 0
+				for _, A := range adapters {
+					fam := structFamily(A)
+					found := false
+					for i := range latches {
+						if fam[latches[i].T] {
+							l = &latches[i]
+							found = true
+						}
+					}
+					if !found {
+						all = false
 					}
 				}
 				if l == nil {
@@ -1035,13 +1105,85 @@ func ruleLatch(c *Ctx) *RuleResult {
 				ord++
 				key := fmt.Sprintf("%s|%s#%d", fname(fn), l.T.Obj().Name(), ord)
 				pos := c.pos(call.Pos())
-				afterSort(fn, call, key, pos, l.isErr, l.T.Obj().Name()+".Less", func(v ssa.Value) bool {
-					ld, ok := v.(*ssa.UnOp)
-					if !ok || ld.Op != token.MUL {
+				if !all {
+					r.undecided(key, pos, fname(fn), "the sorted value can be an adapter without the failure latch")
+					continue
+				}
+				lt := l
+				// getter: a method all of whose returns yield the latch of its receiver
+				isGetter := func(f *ssa.Function) bool {
+					if f == nil || f.Blocks == nil || f.Signature.Recv() == nil || len(f.Params) == 0 || f.Signature.Results().Len() != 1 {
 						return false
 					}
-					fa, ok := ld.X.(*ssa.FieldAddr)
-					return ok && fa.Field == l.field && fa.X == mi.X
+					// a promoted method reaches the declared one through a wrapper
+					if f.Synthetic != "" {
+						for _, b := range f.Blocks {
+							for _, in := range b.Instrs {
+								if cl, ok := in.(*ssa.Call); ok {
+									if sc := staticCallee(cl); sc != nil && sc.Name() == f.Name() {
+										f = sc
+									}
+								}
+							}
+						}
+					}
+					n := 0
+					for _, b := range f.Blocks {
+						ret := blockReturn(b)
+						if ret == nil {
+							continue
+						}
+						n++
+						ld, ok := retResults(ret)[0].(*ssa.UnOp)
+						if !ok || ld.Op != token.MUL {
+							return false
+						}
+						owner, fld, ok := chainField(ld.X, f.Params[0])
+						if !ok || owner != lt.T || fld != lt.field {
+							return false
+						}
+					}
+					return n > 0
+				}
+				rootedAt := func(v ssa.Value) bool {
+					for i := 0; i < 4; i++ {
+						if v == obj {
+							return true
+						}
+						fa, ok := v.(*ssa.FieldAddr)
+						if !ok || !isEmbeddedField(fa) {
+							return false
+						}
+						v = fa.X
+					}
+					return false
+				}
+				afterSort(fn, call, key, pos, l.isErr, l.T.Obj().Name()+".Less", func(v ssa.Value) bool {
+					switch v := v.(type) {
+					case *ssa.UnOp:
+						if v.Op != token.MUL {
+							return false
+						}
+						owner, fld, ok := chainField(v.X, obj)
+						return ok && owner == lt.T && fld == lt.field
+					case *ssa.Call:
+						if v.Call.IsInvoke() {
+							if v.Call.Value != obj {
+								return false
+							}
+							for _, A := range adapters {
+								m := c.Prog.LookupMethod(types.NewPointer(A), v.Call.Method.Pkg(), v.Call.Method.Name())
+								if !isGetter(m) {
+									return false
+								}
+							}
+							return len(adapters) > 0
+						}
+						if sc := staticCallee(v); sc != nil && len(v.Call.Args) > 0 && rootedAt(v.Call.Args[0]) {
+							return isGetter(sc)
+						}
+					}
+					return false
 				})
 			}
 		}
